@@ -12,8 +12,30 @@ import clif  # noqa: E402
 TVDUMP = "/verif/.target/tvdump/debug/tvdump"
 
 
+def one_config(path, rm, tier, env):
+    import hashlib
+    m = {}
+    try:
+        e = dict(os.environ)
+        e.update(env)
+        p = subprocess.run([TVDUMP, "clif", path, rm["top"]], capture_output=True, text=True, timeout=120, env=e)
+        out = p.stdout
+        i = out.rfind("LAYOUT ")
+        if p.returncode != 0 or i < 0:
+            return dict(verdict="unsupported", why="simulator IR/JIT build failed: " + p.stderr[-120:])
+        layout = json.loads(out[i + 7:])
+        m["ir_hash"] = hashlib.md5(out[:i].encode()).hexdigest()[:12]
+        m.update(clif.check_design(out[:i], layout, rm["rtl"], timeout_ms=20000 if tier == "quick" else 120000))
+    except clif.Unsupported as e:
+        m.update(verdict="unsupported", why=str(e)[:120])
+    except subprocess.TimeoutExpired:
+        m.update(verdict="unsupported", why="tvdump clif timeout")
+    return m
+
+
 def main():
     label, path, tier, work = sys.argv[1:5]
+    configs = json.loads(sys.argv[5]) if len(sys.argv) > 5 else [["default", {}]]
     res = dict(label=label, path=path, modules=[])
     rj = os.path.join(work, f"clifrtl_{os.getpid()}.json")
     p = subprocess.run([TVDUMP, "rtl", path, rj], capture_output=True, text=True, timeout=120)
@@ -40,24 +62,29 @@ def main():
             res["modules"].append(m)
             continue
         t0 = time.time()
-        try:
-            p = subprocess.run([TVDUMP, "clif", path, rm["top"]], capture_output=True, text=True, timeout=120)
-            out = p.stdout
-            i = out.rfind("LAYOUT ")
-            if p.returncode != 0 or i < 0:
-                m["verdict"] = "unsupported"
-                m["why"] = "simulator IR/JIT build failed: " + p.stderr[-120:]
-                res["modules"].append(m)
-                continue
-            layout = json.loads(out[i + 7:])
-            r = clif.check_design(out[:i], layout, rm["rtl"], timeout_ms=20000 if tier == "quick" else 120000)
-            m.update(r)
-        except clif.Unsupported as e:
-            m["verdict"] = "unsupported"
-            m["why"] = str(e)[:120]
-        except subprocess.TimeoutExpired:
-            m["verdict"] = "unsupported"
-            m["why"] = "tvdump clif timeout"
+        per = []
+        for (cname, env) in configs:
+            r = one_config(path, rm, tier, env)
+            r["config"] = cname
+            per.append(r)
+            if r["verdict"] == "differs":
+                break
+        if len(configs) == 1:
+            m.update({k: v for k, v in per[0].items() if k != "config"})
+        else:
+            bad = next((r for r in per if r["verdict"] == "differs"), None)
+            if bad:
+                m.update(bad)
+            elif all(r["verdict"] == "equal" for r in per):
+                m.update(verdict="equal", queries=sum(r.get("queries", 0) for r in per),
+                         obligations=per[0].get("obligations"), functions=[r.get("functions") for r in per],
+                         configs=len(per),
+                         distinct_from_default=[r["config"].split(":")[0] for r in per[1:]
+                                                if r.get("ir_hash") != per[0].get("ir_hash")])
+            else:
+                u = next(r for r in per if r["verdict"] != "equal")
+                m.update(verdict=u["verdict"], why=f"[{u['config']}] " + str(u.get("why", ""))[:100],
+                         configs_equal=sum(1 for r in per if r["verdict"] == "equal"))
         m["secs"] = round(time.time() - t0, 2)
         res["modules"].append(m)
     print(json.dumps(res))
